@@ -128,7 +128,9 @@ func C15(p *core.Program, r *core.Report) {
 					return "", false // some other local list
 				}
 				el := c.Of(call.Call.Args[1])
-				if el == "{"+mt+"}" {
+				if el == "{"+mt+"}" || el == `{μ(""|`+mt+`)}` || el == `{μ(`+mt+`|"")}` {
+					// (the second form: a helper that answers "" for a page that opted out, merged
+					// with the parser's title; "" is never appended, the test below sees the merge)
 					return "add markup title", true
 				}
 				// anything else must be made of <title>/<h1> text (A2)
@@ -147,7 +149,7 @@ func C15(p *core.Program, r *core.Report) {
 		}
 		first := "return " + cand + "[0]"
 		spec := core.DecisionSpec{
-			Atoms: map[string]string{"fresh": q(`len(` + cand + `) <= 0`), "no.markup.title": q(mt + ` == ""`), "opt.out": q(`markup.Parser.OptOut($0.Parser)`)},
+			Atoms: map[string]string{"fresh": q(`len(` + cand + `) <= 0`), "no.markup.title": `^(` + regexp.QuoteMeta(mt) + `|` + regexp.QuoteMeta(`μ(""|`+mt+`)`) + `|` + regexp.QuoteMeta(`μ(`+mt+`|"")`) + `) == ""$`, "opt.out": q(`markup.Parser.OptOut($0.Parser)`)},
 			Rules: []core.SpecRule{
 				{Name: "already initialised: first candidate", Guard: core.Not(core.A("fresh")), Outcome: first},
 				{Name: "the page opted out (MarkupInfo is empty): document title only", Guard: core.A("opt.out"), Outcome: "add document title => " + first},
@@ -182,8 +184,49 @@ func C15(p *core.Program, r *core.Report) {
 			}
 			paths[i].Outcome = out
 		}
+		// a helper that answers "" for a page that opted out and the parser's title otherwise gives
+		// a merge μ(""|title): if (checked on the CFG) the "" arrives exactly over the opted-out
+		// edge, a path that takes the page for opted out and the merge for non-empty is infeasible
+		optAtom := `markup.Parser.OptOut($0.Parser)`
+		mergeEmptyIffOptOut := func(atom string) bool {
+			for _, in := range instrsOf(ex) {
+				ph, ok := in.(*ssa.Phi)
+				if !ok || len(ph.Edges) != 2 || c.Of(ph)+` == ""` != atom {
+					continue
+				}
+				cutOut, m1 := core.CutAtoms(p, ex, regexp.MustCompile(q(optAtom)), true)
+				cutIn, _ := core.CutAtoms(p, ex, regexp.MustCompile(q(optAtom)), false)
+				okAll := len(m1) > 0
+				for i, e := range ph.Edges {
+					pred := ph.Block().Preds[i]
+					if len(pred.Instrs) == 0 {
+						return false
+					}
+					last := pred.Instrs[len(pred.Instrs)-1]
+					if s, isC := core.ConstString(e); isC && s == "" {
+						okAll = okAll && !core.InstrReachable(ex, cutOut, last) // only when opted out
+					} else {
+						okAll = okAll && !core.InstrReachable(ex, cutIn, last) // only when not opted out
+					}
+				}
+				return okAll
+			}
+			return false
+		}
 		for _, pa := range paths {
 			if strings.Contains(pa.Outcome, "add ") && pa.Outcome[strings.LastIndex(pa.Outcome, "=> ")+3:] == `return ""` {
+				continue
+			}
+			infeasible := false
+			opt := litOf(pa, optAtom)
+			for _, l := range pa.Lits {
+				if strings.HasPrefix(l.Atom, "μ(") && strings.HasSuffix(l.Atom, ` == ""`) && strings.Contains(l.Atom, mt) && mergeEmptyIffOptOut(l.Atom) {
+					if opt == 1 && !l.Val {
+						infeasible = true
+					}
+				}
+			}
+			if infeasible {
 				continue
 			}
 			feasible = append(feasible, pa)
